@@ -1624,8 +1624,12 @@ class TokamakEquilibrium(Equilibrium):
                     if region["psi"] is None:
                         raise ValueError("No psi values in region")
                     leg_psi = region["psi"]
-                    eqreg.pressure = lambda psi: self.pressure(
-                        leg_psi + sign * abs(psi - leg_psi)
+                    # Bind leg_psi and sign as default arguments, so that each region
+                    # keeps its own values: a plain closure would see the values from
+                    # the last iteration of this loop, which is wrong when the legs
+                    # are on different separatrices (disconnected double null)
+                    eqreg.pressure = lambda psi, leg_psi=leg_psi, sign=sign: (
+                        self.pressure(leg_psi + sign * abs(psi - leg_psi))
                     )
                 else:
                     # Core region, so use the core pressure
